@@ -71,6 +71,7 @@ class Device(object):
         self.nopen = 0
         self.host_maxdata = None
         self.maxdata = (env.session_over or {}).get('maxdata', cfg.get('maxdata', MAXDATA))
+        env.session_banner = (env.session_over or {}).get('banner')
         self.stale = []
         self.remote_ids = list(cfg.get('remote_ids', DEFAULT_REMOTE_IDS))
         spec = (env.session_over or {}).get('auth') or cfg.get('auth')
@@ -95,7 +96,7 @@ class Device(object):
     def send_cnxn(self, delay=0.0, maxdata=None):
         self.online = True
         self.enqueue(self.conn_q, Packet(b'CNXN', self.cfg.get('version', 0x01000000), self.maxdata if maxdata is None else maxdata,
-                                         self.cfg.get('banner', b'device::ro.product.name=sim;\0')), delay)
+                                         (self.env.session_banner or self.cfg.get('banner', b'device::ro.product.name=sim;\0'))), delay)
         for pkt in self.stale:          # whole packets of the previous session that the link delivers late (unflushed USB pipe, slow device)
             self.enqueue(self.conn_q, pkt, delay)
         self.stale = []
